@@ -193,4 +193,54 @@ def build(tier, seed):
                           show=lambda *a: f'a={a[0]} b={a[1]} cached={a[2]} k={a[3]}'))
             obs.append(Ob(f'c11.adapter[same as dict model, {label}]', hd, witness=[(1, 2, 5), (4, -4, 0)], timeout=600, cost=30, family='c11.adapter',
                           bounds=book + '; a, b, k: all ints: evaluates like a model built by read_and_parse_dict from the same contents', show=lambda *a: f'a={a[0]} b={a[1]} k={a[2]}'))
+    # ---------------- patch.WorksheetReader.bind_cells: parsed cell records -> worksheet cells (value, data type, cached value of formulas)
+    BWB = openpyxl.Workbook()          # built once, outside the traced code; every path starts from an empty sheet
+    BWS = BWB.active
+    BWS.title = 'S'
+
+    def h_bind(v: CV, k: int, cached: CV, r: int, c: int) -> bool:
+        r, c = concretize(r, 1, 3), concretize(c, 1, 3)
+        wb, ws = BWB, BWS
+        ws._cells.clear()
+        ws._current_row = 0
+        dt = 'b' if isinstance(v, bool) else ('n' if isinstance(v, int) else 's')
+        recs = [(r, [{'row': r, 'column': c, 'value': v, 'data_type': dt, 'style_id': 0},
+                     {'row': r, 'column': c + 1, 'value': None, 'data_type': 'n', 'style_id': 0}]),
+                (r + 2, [{'row': r + 2, 'column': c, 'value': '=A1+1', 'data_type': 'f', 'style_id': 0, 'cvalue': cached},
+                         {'row': r + 2, 'column': c + 2, 'value': k, 'data_type': 'n', 'style_id': 0}])]
+
+        class Parser:
+            def parse(self):
+                return iter(recs)
+        rd = PT.WorksheetReader.__new__(PT.WorksheetReader)
+        rd.ws, rd.parser, rd.tables = ws, Parser(), []
+        rd.bind_cells()
+        want = {(r, c): (v, dt), (r, c + 1): (None, 'n'), (r + 2, c): ('=A1+1', 'f'), (r + 2, c + 2): (k, 'n')}
+        if sorted(ws._cells.keys()) != sorted(want.keys()):
+            return False
+        for key, (val_, dt_) in want.items():
+            cell = ws._cells[key]
+            if not (isinstance(cell, PT.Cell) and cell.data_type == dt_ and (cell._value is val_ or cell._value == val_) and isinstance(cell._value, bool) == isinstance(val_, bool)):
+                return False
+        fc = ws._cells[(r + 2, c)]
+        if not (fc.cvalue == cached and isinstance(fc.cvalue, bool) == isinstance(cached, bool)):
+            return False
+        if ws._current_row != r + 2:
+            return False
+        # ... and on through the reader: one model cell per bound cell, formula text and cached result kept apart
+        rdr = RD.Reader('in-memory')
+        rdr.book = wb
+        cells, formulae, _ = rdr.read_cells()
+        col = 'ABCDE'
+        a_f, a_v, a_k = f'S!{col[c - 1]}{r + 2}', f'S!{col[c - 1]}{r}', f'S!{col[c + 1]}{r + 2}'
+        if sorted(cells.keys()) != sorted([a_f, a_v, a_k, f'S!{col[c]}{r}']):
+            return False
+        return (cells[a_f].formula.formula == '=A1+1' and cells[a_f].value == cached and a_f in formulae and cells[a_v].value == v and cells[a_v].formula is None
+                and cells[a_k].value == k and cells[f'S!{col[c]}{r}'].value is None)
+    obs.append(Ob('c11.patch[bind_cells -> read_cells]', h_bind,
+                  pre=lambda v, k, cached, r, c: 1 <= r <= 3 and 1 <= c <= 3 and (not isinstance(v, str) or len(v) <= 2) and (not isinstance(cached, str) or len(cached) <= 2),
+                  witness=[(5, 7, 6, 1, 1), ('ab', 0, 'x', 2, 3), (True, -1, False, 3, 2)], timeout=600, cost=40, family='c11.patch',
+                  bounds='parsed cell records (a constant over int / text(<=2) / bool, a stored empty cell, a formula with a cached result over int / text / bool, a number) at every offset r, c in 1..3 (forked): '
+                         'bind_cells creates one patch.Cell per record with value, data type and - for formulas - the cached value; read_cells turns them into exactly those model cells',
+                  show=lambda v, k, cached, r, c: f'v={v!r} k={k} cached={cached!r} at row {r}, column {c}'))
     return obs
